@@ -55,12 +55,6 @@ class FileInfo:
                     nf, inl = normalize_function(model, self.rel, st, owner_cls)
                     inlined.update(inl)
                     # nested baseline closures: inline artefacts inside them too
-                    for n in ast.walk(nf):
-                        if isinstance(n, ast.FunctionDef) and n is not nf:
-                            from .normalize import Inliner
-                            il = Inliner(model, self.rel, owner_cls)
-                            il.run(n)
-                            inlined.update(il.inlined)
                     container[i] = nf
         process(new.body, None)
         # sequential statement numbering (ordering by lineno stays meaningful after inlining); real lines in _srcline
@@ -91,7 +85,7 @@ class FileInfo:
         self.tree = new
         self.defs = {}
         self._annotate()
-        self.inlined_artefacts = {q for q, d in self.defs.items() if isinstance(d, ast.FunctionDef) and d.name in inlined and is_artefact(self.rel, d)}
+        self.inlined_artefacts = {q for q, d in self.defs.items() if isinstance(d, ast.FunctionDef) and d.name in inlined and is_artefact(self.rel, d, nested=isinstance(getattr(d, '_p', None), (ast.FunctionDef, ast.If, ast.With, ast.Try, ast.For, ast.While)))}
 
     def _annotate(self) -> None:
         tree = self.tree
